@@ -1,6 +1,7 @@
 """Shared anchors and analyses used by several properties' rules."""
 import json
 import os
+import re
 
 from sa import ccp, cfgkit, local, tables, views
 from sa.facts import callee_name, cval, norm
@@ -201,28 +202,48 @@ def class_closure(crate):
 
 
 def predicate_table(ctx, crate, pred_path, rid):
-    """TAB-2 wiring of one predicate: returns the def-path of the table constant it tests membership in,
-    after checking static -> initialiser -> convert(table) -> closed(s,e) -> any(contains(range, c))."""
+    """TAB-2 wiring of one predicate: returns the def-path of the table constant it tests membership in, after checking
+    (by constant propagation, crate-local helpers inlined) that the predicate is  any(range.contains(c))  over the lazily
+    initialised range list of that table - possibly preceded by a bounding check that the table itself implies."""
     b = crate.body(pred_path)
-    d = local.Defs(b)
-    ret = d.local(0)
-    # shape: Iterator::any(iter(deref(deref(&STATIC))), closure[&c])
-    calls = local.calls_in(ret)
-    anyc = [c for c in calls if c[1].endswith("::any")]
-    if ret[0] != "call" or not ret[1].endswith("Iterator>::any") and not ret[1].endswith("Iterator::any"):
-        ctx.violation(rid, (pred_path, "return"), "predicate does not return Iterator::any(..) over its ranges: %s" % local.show(ret), b.loc())
+    c = ccp.Sym("c")
+    m = ccp.Machine([crate], inline=lambda n: crate.body(n) is not None and "__st" not in n and " as std::ops::Deref>" not in n
+                    and " as lazy_static::" not in n, max_depth=4)
+    try:
+        leaves = m.run(b, [c])
+    except Exception as e:
+        ctx.undecided(rid, pred_path, str(e), b.loc())
         return None
-    statics = [x for x in local.walk(ret[2][0]) if x[0] == "static"]
+    main = [l for l in leaves if l.kind == "return" and isinstance(l.value, ccp.Call) and l.value.callee.endswith("::any")]
+    rest = [l for l in leaves if l not in main]
+    if len(main) != 1:
+        ctx.violation(rid, (pred_path, "return"), "predicate does not reduce to one Iterator::any(..) over its ranges: %s" % [ccp.show(l.value)[:80] for l in leaves], b.loc())
+        return None
+    ml = main[0]
+    anyv = ml.value
+    statics = set()
+
+    def walkv(v, depth=0):
+        if depth > 12:
+            return
+        if isinstance(v, ccp.Sym) and v.name.startswith("static "):
+            statics.add(v.name[len("static "):])
+        for x in (getattr(v, "args", None) or []):
+            walkv(x, depth + 1)
+        if isinstance(v, ccp.Fld):
+            walkv(v.base, depth + 1)
+    walkv(anyv.args[0])
     if len(statics) != 1:
-        ctx.undecided(rid, pred_path, "expected one static range list, found %s" % [s[1] for s in statics], b.loc())
+        ctx.undecided(rid, pred_path, "expected one static range list, found %s" % sorted(statics), b.loc())
         return None
-    # closure: CharRange::contains(range, *c) with c the parameter
-    clo = ret[2][1]
+    static_path = list(statics)[0]
+    # membership closure: |range| range.contains(c) with c the predicate's own parameter
+    clo = anyv.args[1] if len(anyv.args) > 1 else None
     ok_clo = False
-    if clo[0] == "agg" and clo[1] == "closure":
-        cb = crate.body(clo[2])
-        caps = [local.peel(o) for o in clo[3]]
-        if cb is not None and len(caps) == 1 and caps[0] == ("param", 1):
+    if isinstance(clo, ccp.Agg) and clo.kind == "closure" and crate.body(clo.label) is not None:
+        caps = [ccp.strip_ref(x) for x in clo.fields]
+        cb = crate.body(clo.label)
+        if len(caps) == 1 and isinstance(caps[0], ccp.Sym) and caps[0].key() == c.key():
             cd = local.Defs(cb)
             r = cd.local(0)
             if r[0] == "call" and r[1] == "unic_char_range::CharRange::contains":
@@ -234,7 +255,28 @@ def predicate_table(ctx, crate, pred_path, rid):
         ctx.violation(rid, (pred_path, "membership closure"),
                       "predicate's closure is not `|range| range.contains(c)` with c the predicate's parameter (inclusive CharRange::contains)", b.loc())
         return None
-    static_path = statics[0][1]
+    # extra conditions on the membership path: only a bounding check implied by the (sorted) table is accepted
+    for atom, val in ml.label:
+        mm = re.match(r"^std::ops::Range(Inclusive)?::<Idx>::contains\(std::ops::Range(?:Inclusive)?::Range(?:Inclusive)?\((.*)\), c\)$", atom)
+        if mm and val == "True":
+            inner = mm.group(2)
+            lo_ok = re.search(r"\.\[0\]\.low", inner) is not None
+            hi_ok = re.search(r"\.\[Sub(?:WithOverflow)?\(.*len\(.*\), 1\)(?:\.0)?\]\.high", inner) is not None
+            if not (lo_ok and hi_ok):
+                ctx.undecided(rid, pred_path, "membership is additionally conditioned on %s" % atom[:160], b.loc())
+                return None
+            if not mm.group(1):
+                ctx.violation(rid, (pred_path, "bounding check"),
+                              "membership is pre-checked with the half-open range first.low..last.high: the last code point of the table is reported as not in the class "
+                              "although regex's class contains it", b.loc())
+                return None
+            continue
+        ctx.undecided(rid, pred_path, "membership is additionally conditioned on %s == %s" % (atom[:160], val), b.loc())
+        return None
+    for l in rest:
+        if not (l.kind == "return" and isinstance(l.value, ccp.Const) and l.value.v is False):
+            ctx.undecided(rid, pred_path, "a path returns %s" % ccp.show(l.value)[:100], b.loc())
+            return None
     # initialiser: fn under the static's Deref impl that calls convert(table)
     inits = [x for x in crate.bodies if x.path.startswith("<%s as std::ops::Deref>::deref::" % static_path)
              and x.arg_count == 0 and x.sig_output and x.sig_output.startswith("std::vec::Vec")]
